@@ -143,6 +143,8 @@ def run(check):
     if not check.has_failing():
         folder_part(check)
     if not check.has_failing():
+        quantity_part(check)
+    if not check.has_failing():
         same_ident_part(check)
     if not check.has_failing():
         emptied_variants_part(check)
@@ -262,6 +264,86 @@ def folder_part(check):
                                     % (lang, crates, r["rc"], lost), case=case,
                                     impl={"rc": r["rc"], "stderr": r["err"][-1500:], "written": sorted(written)}, failing_input=True)
                     return
+
+
+def quantity_inputs(thorough):
+    """[(name, source, {definition name: expected count} or None, [member names expected once each])]"""
+    out = []
+    def structs(n):
+        return "".join("#[typeshare]\npub struct S%d { pub a: u8, pub b: Option<S%d> }\n" % (i, (i * 7 + 3) % n) for i in range(n))
+    for n in ([257, 1030] + ([66000] if thorough else [])):
+        out.append(("structs-%d" % n, structs(n), ["S%d" % i for i in range(n)], []))
+    for n in (257, 300):
+        out.append(("fields-%d" % n, "#[typeshare]\npub struct Wide {\n%s}\n" % "".join("    pub fld_%d: u8,\n" % i for i in range(n)), ["Wide"],
+                    ["fld_%d" % i for i in range(n)]))
+        out.append(("unit-variants-%d" % n, "#[typeshare]\npub enum Many {\n%s}\n" % "".join("    Vx%dEnd,\n" % i for i in range(n)), ["Many"],
+                    ["Vx%dEnd" % i for i in range(n)]))
+        out.append(("tagged-variants-%d" % n, "#[typeshare]\n#[serde(tag = \"t\", content = \"c\")]\npub enum ManyT {\n%s}\n" % "".join(
+            "    Vx%dEnd(u8),\n" % i if i % 2 else "    Vx%dEnd,\n" % i for i in range(n)), ["ManyT"], ["Vx%dEnd" % i for i in range(n)]))
+    for d in (17, 70) + ((200,) if thorough else ()):
+        # (TypeScript writes `[T; N]` as an N-tuple: nested arrays multiply - the recorded finding typescript-array-tuple-expansion -
+        # so only the 17-level nest has two elements per level)
+        for w, (a, b) in (("vec", ("Vec<", ">")), ("option", ("Option<", ">")), ("map", ("HashMap<String, ", ">")), ("box", ("Box<", ">")),
+                          ("array", ("[", "; 2]" if d == 17 else "; 1]"))):
+            out.append(("depth-%s-%d" % (w, d), "#[typeshare]\npub struct Deep { pub f: %sDeepLeaf%s }\n#[typeshare]\npub struct DeepLeaf { pub z: u8 }\n" % (a * d, b * d),
+                        ["Deep", "DeepLeaf"], []))
+    out.append(("long-name", "#[typeshare]\npub struct %s { pub %s: u8 }\n" % ("L" + "ongName" * 60, "f" + "_part" * 60), ["L" + "ongName" * 60], []))
+    out.append(("generics-17", "#[typeshare]\npub struct G<%s> {\n%s}\n" % (", ".join("P%d" % i for i in range(17)), "".join("    pub g%d: P%d,\n" % (i, i) for i in range(17))), ["G"], []))
+    mods = "#[typeshare]\npub struct Innermost { pub a: u8 }\n"
+    for i in range(70):
+        mods = "pub mod m%d {\n%s}\n#[typeshare]\npub struct At%d { pub a: u8 }\n" % (i, mods, i)
+    out.append(("modules-70", mods, ["Innermost"] + ["At%d" % i for i in range(70)], []))
+    return out
+
+
+def quantity_part(check, judge="dropped"):
+    """quantity and depth: more than 256 / 1024 (thorough: 65536) items in a file, 257 / 300 fields and variants, type expressions nested
+    17 / 70 (thorough: 200) levels deep, a 421-character name, 17 generic parameters, 70 nested modules - through the real generators
+    in-process, all six languages.  judge="dropped" (C03): every definition and every member is written exactly once, and the output
+    equals the model's; judge="crash" (C07): output or a diagnostic, never a panic, an abort or a hang"""
+    import corpus, c11, c14
+    ins = quantity_inputs(check.thorough)
+    reqs, meta = [], []
+    for name, src, defs, members in ins:
+        for lang in LANGS:
+            if name.startswith("structs-66000") and lang not in ("typescript", "go"):
+                continue
+            cfg = {"package": "proto" if lang == "go" else "com.example", "type_mappings": {}}
+            reqs.append({"op": "generate", "lang": lang, "config": cfg, "multi_file": False, "target_os": [],
+                         "files": [{"src": src, "crate": "", "file_name": "o", "path": "src/lib.rs"}]})
+            meta.append((name, lang, src, defs, members))
+    for (name, lang, src, defs, members), a in zip(meta, runner(reqs)):
+        check.saw(("quantity", name, lang), nontrivial=True)
+        check.count("quantity-%s" % ("panic" if "panic" in a else "ok" if "ok" in a else "error"))
+        case = {"lang": lang, "input": name, "source": src if len(src) < 6000 else src[:3000] + "\n…\n" + src[-1500:]}
+        if "panic" in a:
+            check.violation("%s on the input `%s`: %s" % (lang, name, "no answer (endless loop)" if a.get("hang") else "panic / crash at " + str(a["panic"])),
+                            case=case, impl={k: str(v)[:1500] for k, v in a.items()}, failing_input=True)
+            return
+        if judge != "dropped" or "ok" not in a:
+            continue
+        text = a["ok"].get("", "")
+        found = [next(x for x in (d if isinstance(d, tuple) else (d,)) if x) for d in re.findall(c14.DEF_RX[lang], text, re.M)]
+        bad = [d for d in defs if found.count(d) != 1]
+        # Go writes no definition for a unit enum's name twice, Kotlin / Swift / … each once: `count != 1` is the claim for all
+        if bad:
+            check.violation("%s on the input `%s` (%d definitions expected): %d of them are not written exactly once, e.g. %s x%d"
+                            % (lang, name, len(defs), len(bad), bad[0], found.count(bad[0])), case=case, impl={"output_tail": text[-1500:]}, failing_input=True)
+            return
+        lost = [m for m in members if not re.search(r"(?<![A-Za-z0-9])%s(?![A-Za-z0-9])" % re.escape(m), text)
+                and not re.search(r"(?i)(?<![A-Za-z0-9])%s(?![A-Za-z0-9])" % re.escape(m.replace("_", "")), text)]
+        if lost:
+            check.violation("%s on the input `%s`: %d of %d members are missing from the output, e.g. %s" % (lang, name, len(lost), len(members), lost[0]),
+                            case=case, impl={"output_tail": text[-1500:]}, failing_input=True)
+            return
+    if judge == "dropped":
+        small = [(n, s) for n, s, _, _ in ins if len(s) < 200000]
+        diffs = corpus.compare(check, "quantity", small, LANGS, cfg_names=("default",))
+        for name, lang, cname, src, m, r in diffs[:1]:
+            check.violation("%s: model and implementation differ on the input `%s`: %s" % (lang, name, corpus.describe(m, r)),
+                            case={"lang": lang, "input": name, "source": src[:4000]}, impl={k: str(v)[:1500] for k, v in r.items()},
+                            model={k: str(v)[:1500] for k, v in m.items()}, failing_input=False,
+                            broken="correspondence L2 generate on large inputs (theorems TsV.C03.*, TsV.C03_Emission.*)")
 
 
 def merged_part(check, cases):
